@@ -101,7 +101,14 @@ void print_dualstack() {
             CScript::const_iterator it = env->script.begin();
             opcodetype opcode;
             valtype vchPushValue, p2sh_script_payload;
-            while (env->script.GetOp(it, opcode, vchPushValue)) { p2sh_script_payload = vchPushValue; }
+            while (env->script.GetOp(it, opcode, vchPushValue)) {
+                // what the operation leaves on the stack (OP_1NEGATE and OP_1..OP_16 push a number without carrying push data)
+                if (opcode == OP_1NEGATE || (opcode >= OP_1 && opcode <= OP_16)) {
+                    p2sh_script_payload = CScriptNum((int)opcode - (int)(OP_1 - 1)).getvch();
+                } else {
+                    p2sh_script_payload = vchPushValue;
+                }
+            }
             p2sh_script = CScript(p2sh_script_payload.begin(), p2sh_script_payload.end());
         }
     }
